@@ -15,6 +15,18 @@ def run_gen_half(ctx, info):
     cases, defs = [], {}
     for i in range(n):
         d = c11.gen_def(rng, 0.35)
+        if i % 25 == 7:
+            # an otherwise clean definition whose ONLY fault is a field beyond its field set, in an object declared AFTER a
+            # block (at the top level, or inside a block after a nested block): where an object sits in its list has nothing
+            # to do with whether its ranges are validated (seed C03-11: a walk that returned out of the first block it met)
+            okf = lambda: [adef.mk_field("va", "uint", 0, 8)]
+            badreg = adef.mk_register("After", 50, 8, [adef.mk_field("counter", "uint", 8, 32)], byte_order="LE") if rng.random() < 0.6 else \
+                adef.mk_command("After", 50, size_bits_in=8, fields_in=[adef.mk_field("counter", "uint", 4, 12)])
+            pre = adef.mk_block("Pre", [adef.mk_register("Inner", 1, 8, okf())], address_offset=2000)
+            objs = [adef.mk_register("First", 0, 8, okf()), pre, badreg]
+            if rng.random() < 0.4:
+                objs = [adef.mk_block("Outer", [pre, badreg], address_offset=4000)]
+            d = {"config": adef.mk_config(register_address_type="u16", command_address_type="u16"), "objects": objs}
         # wide fields and sizes up to 128 bits (and a few beyond, which must not be accepted silently as in-bounds)
         if rng.random() < 0.3:
             size = rng.choice([31, 32, 33, 63, 64, 65, 127, 128])
